@@ -355,7 +355,13 @@ def check_d1(case, rec):
         rec.fail('d1-stereo', f'{str(a)!r} spelled {text!r} read as {str(b)!r}: {d[:3]}', sig=sig)
         return
     # absolute convention: RDKit reads the text and chython's canonical output as the same molecule
-    if not any(bb.order == 8 for *_, bb in b.bonds()) and not any(b.atom(n).stereo is not None for n in b.stereogenic_allenes):
+    # aromatic bracket atoms: kekule() documents that it settles their hydrogens itself ("pyrrole cation or protonated pyridine"
+    # for [n+] with two neighbours); a string whose written count it overrides is not one both toolkits read alike
+    repaired = any(ra['bracket'] and ra['aromatic'] and bk._atoms[n].implicit_hydrogens != ra['hcount']
+                   for n, ra in zip(bk._atoms, ref['molecule']['atoms']))
+    if repaired:
+        rec.count('d1:rdkit-not-comparable (kekule() overrides the written hydrogen count of an aromatic bracket atom)')
+    elif not any(bb.order == 8 for *_, bb in b.bonds()) and not any(b.atom(n).stereo is not None for n in b.stereogenic_allenes):
         same = rdkit_same(text, kek_text)
         if same is None:
             rec.count('d1:rdkit-not-comparable')
